@@ -43,10 +43,10 @@ theorem encVal_dict_perm (cfg : Nat → List Nat) (mt : Nat → Option Bool)
 
 /-- **keyword / declaration order**: permuting the argument list of a node (names distinct)
     leaves its stream unchanged. -/
-theorem nodeStream_args_perm (cfg : Nat → List Nat) (mt : Nat → Option Bool) (self : Nat) (nd nd' : Node)
+theorem nodeStream_args_perm (cfg : Nat → List Nat) (ceq : Nat → Nat → Bool) (mt : Nat → Option Bool) (self : Nat) (nd nd' : Node)
     (ht : nd.typeId = nd'.typeId) (hk : nd.task = nd'.task) (hp : nd.args ~ nd'.args)
     (hn : ∀ a b, a ∈ nd.args → b ∈ nd.args → a.name = b.name → a = b) :
-    nodeStream cfg mt self nd = nodeStream cfg mt self nd' := by
+    nodeStream cfg ceq mt self nd = nodeStream cfg ceq mt self nd' := by
   have hs : sortBy (fun a b => bytesLe a.name b.name) nd.args = sortBy (fun a b => bytesLe a.name b.name) nd'.args := by
     apply sortBy_eq_of_perm
     · intro a b; exact bytesLe_total a.name b.name
@@ -59,7 +59,7 @@ theorem nodeStream_args_perm (cfg : Nat → List Nat) (mt : Nat → Option Bool)
 /-- graph-level congruence: if every node of two graphs has the same stream (for every way of
     encoding references), the raw identifiers agree, at any depth, under any stack. -/
 theorem rawAt_congr {D : Type} (hc : HC D) (g g' : Graph)
-    (h : ∀ n cfg, nodeStream cfg g.mt n (g.node n) = nodeStream cfg g'.mt n (g'.node n)) :
+    (h : ∀ n cfg ceq, nodeStream cfg ceq g.mt n (g.node n) = nodeStream cfg ceq g'.mt n (g'.node n)) :
     ∀ fuel stack n, rawAt hc g fuel stack n = rawAt hc g' fuel stack n := by
   intro fuel
   induction fuel with
@@ -68,10 +68,8 @@ theorem rawAt_congr {D : Type} (hc : HC D) (g g' : Graph)
     intro stack n
     simp only [rawAt]
     rw [h n]
-    congr 2
-    funext m
-    split
-    · rfl
-    · rw [ih]
+    have e : (fun m => hc.emb (rawAt hc g fuel (n :: stack) m)) = (fun m => hc.emb (rawAt hc g' fuel (n :: stack) m)) :=
+      funext fun m => by rw [ih]
+    rw [e]
 
 end XpmVerif.Ident
